@@ -311,4 +311,128 @@ theorem runSteps_nil (node : Node) : ∀ (steps : List Step) (w : World), runSte
   | [], _ => rfl
   | s :: rest, w => by simp [runSteps, postStep, runSteps_nil node rest]
 
+/-! ## What the callbacks see -/
+
+/-- A constructor with one body: the log grows by exactly one invocation, with fresh arguments of the
+    evaluated types (also when the callback's result is then rejected). -/
+theorem construct_single_world (nm : String) (e : ListExpr) (outG : String) (k : Int) (env : Env)
+    (cbs : Callbacks) (w : World) (types : List Ty) (he : evalList env e = .ok types)
+    (hc : (cbs nm).2.callable = true) :
+    (construct ⟨[(nm, e)], outG, k⟩ env cbs w).2
+      = ⟨⟨(cbs nm).1, freshIds w.fresh types.length, types⟩ :: w.events, w.fresh + types.length⟩ := by
+  simp only [construct, runSubgraphs, he, subgraphCall, hc, if_true]
+  cases (cbs nm).2.result with
+  | error err => rfl
+  | ok n =>
+    simp only
+    cases lookupGraph _ outG <;> rfl
+
+/-- If: both branches are called with no arguments, `else_branch` first. -/
+theorem construct_if_world (env : Env) (cbs : Callbacks) (w : World) (n1 n2 : Nat)
+    (h1 : (cbs "else_branch").2 = .returnsVars n1) (h2 : (cbs "then_branch").2 = .returnsVars n2) :
+    (construct ifSpec env cbs w).2
+      = ⟨⟨(cbs "then_branch").1, [], []⟩ :: ⟨(cbs "else_branch").1, [], []⟩ :: w.events, w.fresh⟩ := by
+  simp [construct, ifSpec, runSubgraphs, evalList, subgraphCall, h1, h2, CbBehaviour.callable,
+    CbBehaviour.result, freshIds, lookupGraph]
+
+theorem result_ok_iff (beh : CbBehaviour) (n : Nat) : beh.result = .ok n ↔ beh = .returnsVars n := by
+  cases beh <;> simp [CbBehaviour.result]
+
+/-- The graph looked up for `out_variadic` carries the number of Vars its callback returned. -/
+theorem lookup_result (cbs : Callbacks) (nm : String) (g : Graph) :
+    ∀ (gs : List (String × Graph)) (subs : List (String × ListExpr)),
+      gs.map (fun p => (p.1, Except.ok (ε := Err) p.2.nResults))
+        = subs.map (fun p => (p.1, (cbs p.1).2.result)) →
+      lookupGraph gs nm = some g → (cbs nm).2.result = .ok g.nResults := by
+  intro gs
+  induction gs with
+  | nil => intro subs _ h; simp [lookupGraph] at h
+  | cons p gs ih =>
+    intro subs hm h
+    cases subs with
+    | nil => simp at hm
+    | cons q subs =>
+      simp only [List.map_cons, List.cons.injEq, Prod.mk.injEq] at hm
+      obtain ⟨⟨hn, hr⟩, hrest⟩ := hm
+      simp only [lookupGraph, List.find?] at h
+      by_cases hp : (p.1 == nm) = true
+      · simp only [hp, Option.map_some, Option.some.injEq] at h
+        have : p.1 = nm := by simpa using hp
+        rw [← this, hn, ← hr, h]
+      · have hp' : (p.1 == nm) = false := by simpa using hp
+        simp only [hp'] at h
+        exact ih subs hrest h
+
+/-- `out_variadic` of a successfully constructed node. -/
+theorem construct_out (spec : CtorSpec) (env : Env) (cbs : Callbacks) (w w1 : World) (node : Node)
+    (h : construct spec env cbs w = (.ok node, w1)) :
+    ∃ n, (cbs spec.outGraph).2 = .returnsVars n ∧ node.outVariadic = (n : Int) - spec.outMinus := by
+  unfold construct at h
+  generalize hrs : runSubgraphs env cbs spec.subgraphs w = r at h
+  obtain ⟨res, w'⟩ := r
+  cases res with
+  | error err => simp at h
+  | ok gs =>
+    simp only at h
+    cases hl : lookupGraph gs spec.outGraph with
+    | none => simp [hl] at h
+    | some g =>
+      simp only [hl, Prod.mk.injEq, Except.ok.injEq] at h
+      have hres := lookup_result cbs spec.outGraph g gs spec.subgraphs
+        (runSubgraphs_results env cbs _ _ _ _ hrs) hl
+      exact ⟨g.nResults, (result_ok_iff _ _).1 hres, by rw [← h.1]⟩
+
+theorem subgraphCall_bad (types : List Ty) (cb : Nat) (beh : CbBehaviour) (w : World)
+    (hb : beh.bad = true) : (subgraphCall types cb beh w).1 = .error .typeError := by
+  cases beh <;> simp [CbBehaviour.bad] at hb <;>
+    simp [subgraphCall, CbBehaviour.callable, CbBehaviour.result]
+
+theorem subgraphCall_good (types : List Ty) (cb : Nat) (n : Nat) (w : World) :
+    ∃ g w1, subgraphCall types cb (.returnsVars n) w = (.ok g, w1) := by
+  simp [subgraphCall, CbBehaviour.callable, CbBehaviour.result]
+
+/-- If every type expression evaluates, every callback is good or bad, and at least one is bad, the
+    `subgraph(…)` calls end in a TypeError. -/
+theorem runSubgraphs_bad (env : Env) (cbs : Callbacks) :
+    ∀ (subs : List (String × ListExpr)) (w : World),
+      (∀ p ∈ subs, ∃ ts, evalList env p.2 = .ok ts) →
+      (∀ p ∈ subs, (cbs p.1).2.good = true ∨ (cbs p.1).2.bad = true) →
+      (∃ p ∈ subs, (cbs p.1).2.bad = true) →
+      (runSubgraphs env cbs subs w).1 = .error .typeError := by
+  intro subs
+  induction subs with
+  | nil => intro w _ _ h; simp at h
+  | cons p rest ih =>
+    intro w hev hgb hex
+    obtain ⟨nm, e⟩ := p
+    obtain ⟨ts, hts⟩ := hev (nm, e) (by simp)
+    simp only at hts
+    simp only [runSubgraphs, hts]
+    rcases hgb (nm, e) (by simp) with hg | hb
+    · -- this one is good: the bad one is later
+      have hbeh : ∃ n, (cbs nm).2 = .returnsVars n := by
+        simp only at hg
+        cases hx : (cbs nm).2 <;> simp [hx, CbBehaviour.good] at hg
+        exact ⟨_, rfl⟩
+      obtain ⟨n, hn⟩ := hbeh
+      obtain ⟨g, w1, hsc⟩ := subgraphCall_good ts (cbs nm).1 n w
+      rw [hn, hsc]
+      simp only
+      have hex' : ∃ p ∈ rest, (cbs p.1).2.bad = true := by
+        obtain ⟨q, hq, hqb⟩ := hex
+        simp only [List.mem_cons] at hq
+        rcases hq with rfl | hq
+        · simp only at hqb; rw [hn] at hqb; simp [CbBehaviour.bad] at hqb
+        · exact ⟨q, hq, hqb⟩
+      have := ih w1 (fun q hq => hev q (by simp [hq])) (fun q hq => hgb q (by simp [hq])) hex'
+      generalize runSubgraphs env cbs rest w1 = r2 at this
+      obtain ⟨res2, w2⟩ := r2
+      simp only at this
+      rw [this]
+    · have := subgraphCall_bad ts (cbs nm).1 (cbs nm).2 w hb
+      generalize subgraphCall ts (cbs nm).1 (cbs nm).2 w = r at this
+      obtain ⟨res, w1⟩ := r
+      simp only at this
+      rw [this]
+
 end SubgraphLemmas
